@@ -56,8 +56,245 @@ pub fn scratch_slack() -> usize {
     *SLACK.get_or_init(|| std::env::var("VERIF_ENC_SLACK").ok().and_then(|s| s.parse().ok()).unwrap_or(SCRATCH_SLACK))
 }
 
-/// Runs `f` with a scratch arena of `bytes` + SCRATCH_SLACK bytes pre-filled with garbage pattern `which`.
+/// How `with_scratch` hands scratch to the library on the current thread.
+#[derive(Clone, Copy, Debug, PartialEq, Eq)]
+pub enum ScratchPolicy {
+    /// query + slack, filled with the caller's garbage pattern (C01 / C06 / C19)
+    Slack,
+    /// an exact-size window of exactly the queried bytes between canary bytes, filled with pattern `fill`
+    /// (pvc_engine::rng::garbage numbering: 0 NaN/huge, 1 big/position, 2 zeros, 3 0x11); no slack, VERIF_ENC_SLACK ignored
+    Exact { fill: usize },
+    /// query + slack, but filled with pattern `fill` irrespective of the caller's choice (C11)
+    SlackFill { fill: usize },
+}
+
+/// One scratch hand-over under a non-default policy.
+#[derive(Clone, Debug)]
+pub struct ScratchEvent {
+    pub op: String,
+    pub bytes: usize,
+    pub canaries_ok: bool,
+}
+
+thread_local! {
+    static POLICY: std::cell::Cell<ScratchPolicy> = const { std::cell::Cell::new(ScratchPolicy::Slack) };
+    static EVENTS: std::cell::RefCell<Vec<ScratchEvent>> = const { std::cell::RefCell::new(Vec::new()) };
+    static EXTRAS: std::cell::Cell<bool> = const { std::cell::Cell::new(false) };
+    static LENIENT: std::cell::RefCell<Vec<String>> = const { std::cell::RefCell::new(Vec::new()) };
+}
+
+/// operations (event-log names) that get query + slack even under the `Exact` policy: after an exact-size failure of one
+/// call has been reported, the case is re-run with that call relaxed so that the calls behind it are still reached
+pub fn set_lenient_ops(ops: Vec<String>) {
+    LENIENT.with(|l| *l.borrow_mut() = ops);
+}
+
+fn is_lenient(op: &str) -> bool {
+    LENIENT.with(|l| l.borrow().iter().any(|x| x == op))
+}
+
+pub fn set_scratch_policy(p: ScratchPolicy) {
+    POLICY.with(|c| c.set(p));
+    EVENTS.with(|e| e.borrow_mut().clear());
+}
+
+pub fn scratch_policy() -> ScratchPolicy {
+    POLICY.with(|c| c.get())
+}
+
+/// scratch hand-overs since the last `set_scratch_policy`
+pub fn take_scratch_events() -> Vec<ScratchEvent> {
+    EVENTS.with(|e| std::mem::take(&mut *e.borrow_mut()))
+}
+
+/// One recorded step of a driver program (extras mode).
+#[derive(Clone, Debug)]
+pub struct Step {
+    pub name: String,
+    pub bytes: Vec<u8>,
+    /// comparable across backends (coefficient-domain data); prepared / DFT-domain buffers are not
+    pub portable: bool,
+}
+
+thread_local! {
+    static STEPS: std::cell::RefCell<Vec<Step>> = const { std::cell::RefCell::new(Vec::new()) };
+    static ISSUES: std::cell::RefCell<Vec<String>> = const { std::cell::RefCell::new(Vec::new()) };
+}
+
+pub fn record_step(name: &str, bytes: &[u8], portable: bool) {
+    if extras() {
+        STEPS.with(|s| {
+            s.borrow_mut().push(Step {
+                name: name.to_string(),
+                bytes: bytes.to_vec(),
+                portable,
+            })
+        });
+    }
+}
+
+pub fn take_steps() -> Vec<Step> {
+    STEPS.with(|s| std::mem::take(&mut *s.borrow_mut()))
+}
+
+pub fn record_issue(msg: String) {
+    ISSUES.with(|s| s.borrow_mut().push(msg));
+}
+
+pub fn take_issues() -> Vec<String> {
+    ISSUES.with(|s| std::mem::take(&mut *s.borrow_mut()))
+}
+
+/// digest of a serialisable read-only operand (0 when extras are off)
+pub fn operand_digest<T: poulpy_hal::layouts::WriterTo>(t: &T) -> u64 {
+    if !extras() {
+        return 0;
+    }
+    let mut v = vec![];
+    t.write_to(&mut v).expect("write_to into a Vec");
+    pvc_engine::fnv(&v)
+}
+
+pub fn operand_verify<T: poulpy_hal::layouts::WriterTo>(name: &str, before: u64, t: &T) {
+    if extras() && operand_digest(t) != before {
+        record_issue(format!("operand_modified: {name}"));
+    }
+}
+
+/// Guards a read-only i64 operand (plaintext, LWE secret): its digest at creation must still hold when the guard drops.
+pub struct RawGuard<'a> {
+    name: &'static str,
+    data: &'a [i64],
+    digest: u64,
+}
+
+impl<'a> RawGuard<'a> {
+    pub fn new(name: &'static str, data: &'a [i64]) -> Self {
+        RawGuard {
+            name,
+            data,
+            digest: if extras() { pvc_engine::hash_i64s(data) } else { 0 },
+        }
+    }
+}
+
+impl Drop for RawGuard<'_> {
+    fn drop(&mut self) {
+        if extras() && !std::thread::panicking() && pvc_engine::hash_i64s(self.data) != self.digest {
+            record_issue(format!("operand_modified: {}", self.name));
+        }
+    }
+}
+
+/// Guards a GLWE secret (prepared and unprepared form): when the guard drops, both must still decrypt the unit masks
+/// to the clear coefficients.
+pub struct SkGuard<'a, B: Bk>
+where
+    Module<B>: HalAll<B> + CoreAll<B>,
+    Scratch<B>: ScratchTakeCore<B>,
+{
+    m: &'a Module<B>,
+    sk: &'a Sk<B>,
+    name: &'static str,
+}
+
+impl<'a, B: Bk> SkGuard<'a, B>
+where
+    Module<B>: HalAll<B> + CoreAll<B>,
+    Scratch<B>: ScratchTakeCore<B>,
+{
+    pub fn new(name: &'static str, m: &'a Module<B>, sk: &'a Sk<B>) -> Self {
+        SkGuard { m, sk, name }
+    }
+}
+
+impl<B: Bk> Drop for SkGuard<'_, B>
+where
+    Module<B>: HalAll<B> + CoreAll<B>,
+    Scratch<B>: ScratchTakeCore<B>,
+{
+    fn drop(&mut self) {
+        if !extras() || std::thread::panicking() {
+            return;
+        }
+        let rank = self.sk.clear.len();
+        if rank == 0 {
+            return;
+        }
+        let n = self.sk.clear[0].len();
+        let r = pvc_engine::guarded(|| {
+            verify_prepared_secret::<B>(self.m, n, rank, &self.sk.prep, &self.sk.clear)
+                .and_then(|_| verify_secret::<B>(self.m, n, rank, &self.sk.sk, &self.sk.clear))
+        });
+        match r {
+            Ok(Ok(())) => {}
+            Ok(Err(e)) => record_issue(format!("operand_modified: {} ({e})", self.name)),
+            Err(e) => record_issue(format!("operand_modified: {} (verification panicked: {e})", self.name)),
+        }
+    }
+}
+
+/// the drivers also decrypt single ciphertexts, prepare key material, snapshot every step and digest read-only operands
+pub fn set_extras(on: bool) {
+    EXTRAS.with(|c| c.set(on));
+}
+
+pub fn extras() -> bool {
+    EXTRAS.with(|c| c.get())
+}
+
+const CANARY: u8 = 0xC5;
+
+/// Runs `f` with a scratch arena for a companion query of `bytes` bytes, prepared according to the thread's policy
+/// (default: `bytes` + SCRATCH_SLACK pre-filled with garbage pattern `which`); the hand-over is logged as operation "encrypt".
 pub fn with_scratch<B: Bk, T>(bytes: usize, which: usize, f: impl FnOnce(&mut Scratch<B>) -> T) -> T {
+    with_scratch_op::<B, T>("encrypt", bytes, which, f)
+}
+
+/// `with_scratch` with the name of the library operation that receives the scratch (for the event log).
+pub fn with_scratch_op<B: Bk, T>(op: &str, bytes: usize, which: usize, f: impl FnOnce(&mut Scratch<B>) -> T) -> T {
+    match scratch_policy() {
+        ScratchPolicy::Slack => with_scratch_slack::<B, T>(bytes, which, f),
+        ScratchPolicy::SlackFill { fill } => {
+            EVENTS.with(|e| {
+                e.borrow_mut().push(ScratchEvent {
+                    op: op.to_string(),
+                    bytes,
+                    canaries_ok: true,
+                })
+            });
+            with_scratch_slack::<B, T>(bytes, fill, f)
+        }
+        ScratchPolicy::Exact { fill } if is_lenient(op) => with_scratch_slack::<B, T>(bytes, fill, f),
+        ScratchPolicy::Exact { fill } => {
+            let pad = 128usize;
+            let mut buf = alloc_aligned::<u8>(pad + bytes + pad + 64);
+            buf.fill(CANARY);
+            garbage(&mut buf[pad..pad + bytes], fill);
+            // the event is logged before the call so that a panic escaping `f` still leaves the size behind
+            EVENTS.with(|e| {
+                e.borrow_mut().push(ScratchEvent {
+                    op: op.to_string(),
+                    bytes,
+                    canaries_ok: true,
+                })
+            });
+            let r = f(B::scratch_from_bytes(&mut buf[pad..pad + bytes]));
+            let ok = buf[..pad].iter().all(|x| *x == CANARY) && buf[pad + bytes..].iter().all(|x| *x == CANARY);
+            if !ok {
+                EVENTS.with(|e| {
+                    if let Some(last) = e.borrow_mut().iter_mut().rev().find(|x| x.op == op && x.bytes == bytes) {
+                        last.canaries_ok = false;
+                    }
+                });
+            }
+            r
+        }
+    }
+}
+
+/// query + slack regardless of the policy (harness-internal calls such as the secret replication check)
+pub fn with_scratch_slack<B: Bk, T>(bytes: usize, which: usize, f: impl FnOnce(&mut Scratch<B>) -> T) -> T {
     let bytes = bytes.div_ceil(64) * 64 + scratch_slack();
     let mut buf = alloc_aligned::<u8>(bytes);
     garbage(&mut buf, which);
@@ -199,24 +436,55 @@ where
     let mut prep = m.glwe_secret_prepared_alloc(rk(rank));
     m.glwe_secret_prepare(&mut prep, &sk);
     let clear = clear_secret(n, rank, dist, seed);
-    // replication check
+    if let Err(msg) = verify_prepared_secret::<B>(m, n, rank, &prep, &clear) {
+        machinery_abort(&format!(
+            "clear_secret does not replicate GLWESecret::fill ({dist:?}, n={n}, rank={rank}, backend {}): {msg}",
+            B::NAME
+        ));
+    }
+    let l1: i128 = clear.iter().flat_map(|c| c.iter()).map(|x| x.unsigned_abs() as i128).sum();
+    if extras() {
+        let flat: Vec<i64> = clear.iter().flatten().cloned().collect();
+        record_step("glwe_secret", i64_bytes(&flat), true);
+    }
+    Sk { sk, prep, clear, l1 }
+}
+
+/// noise-free decryptions of the unit masks (phase of (0, .., 2^-8 at mask column i, ..) is s_i * 2^-8) must return the
+/// clear coefficients: a functional digest of a prepared secret (the type has no accessor)
+pub fn verify_prepared_secret<B: Bk>(
+    m: &Module<B>,
+    n: usize,
+    rank: usize,
+    prep: &GLWESecretPrepared<DeviceBuf<B>, B>,
+    clear: &[Vec<i64>],
+) -> Result<(), String>
+where
+    Module<B>: HalAll<B> + CoreAll<B>,
+    Scratch<B>: ScratchTakeCore<B>,
+{
     for i in 0..rank {
         let mut ct = GLWE::alloc(deg(n), b2k(8), tp(8), rk(rank));
         ct.data_mut().at_mut(i + 1, 0)[0] = 1;
         let mut pt = pt_garbage(n, 8, 1, 0);
         let bytes = m.glwe_decrypt_tmp_bytes(&ct);
-        with_scratch::<B, _>(bytes, 0, |s| m.glwe_decrypt(&ct, &mut pt, &prep, s));
+        with_scratch_slack::<B, _>(bytes, 0, |s| m.glwe_decrypt(&ct, &mut pt, prep, s));
         if pt.data().at(0, 0) != &clear[i][..] {
-            machinery_abort(&format!(
-                "clear_secret does not replicate GLWESecret::fill ({dist:?}, n={n}, rank={rank}, column {i}, backend {}): library {:?} harness {:?}",
-                B::NAME,
-                pt.data().at(0, 0),
-                clear[i]
-            ));
+            return Err(format!("column {i}: library {:?} harness {:?}", pt.data().at(0, 0), clear[i]));
         }
     }
-    let l1: i128 = clear.iter().flat_map(|c| c.iter()).map(|x| x.unsigned_abs() as i128).sum();
-    Sk { sk, prep, clear, l1 }
+    Ok(())
+}
+
+/// the same digest for an unprepared secret (prepares a fresh copy first)
+pub fn verify_secret<B: Bk>(m: &Module<B>, n: usize, rank: usize, sk: &GLWESecret<Vec<u8>>, clear: &[Vec<i64>]) -> Result<(), String>
+where
+    Module<B>: HalAll<B> + CoreAll<B>,
+    Scratch<B>: ScratchTakeCore<B>,
+{
+    let mut prep = m.glwe_secret_prepared_alloc(rk(rank));
+    m.glwe_secret_prepare(&mut prep, sk);
+    verify_prepared_secret::<B>(m, n, rank, &prep, clear)
 }
 
 pub fn make_lwe_sk(n: usize, dist: Dist, seed: [u8; 32]) -> (LWESecret<Vec<u8>>, Vec<i64>) {
@@ -226,6 +494,7 @@ pub fn make_lwe_sk(n: usize, dist: Dist, seed: [u8; 32]) -> (LWESecret<Vec<u8>>,
     if sk.raw() != &clear[..] {
         machinery_abort(&format!("clear_secret does not replicate LWESecret::fill ({dist:?}, n={n})"));
     }
+    record_step("lwe_secret", i64_bytes(&clear), true);
     (sk, clear)
 }
 
